@@ -45,11 +45,24 @@ def run_interleaving(case):
         if f not in dags:
             inner = plain_xn("h%d" % f, f)
 
-            def dd(x):
-                return inner(x)
+            if f >= 102:
+                # a shared DAG with a setup node; it is set up before it is shared between threads
+                def ld():
+                    return ("loaded", f)
+                ld.__qualname__ = "l%d" % f
+                ld.__name__ = "l%d" % f
+                loader = tawazi.xn(ld, setup=True)
+
+                def dd(x):
+                    return inner(x, loader())
+            else:
+                def dd(x):
+                    return inner(x)
             dd.__qualname__ = "fin%d" % f
             dd.__name__ = "fin%d" % f
             dags[f] = tawazi.dag(dd)
+            if f >= 102:
+                dags[f].setup()
         return dags[f]
 
     # finished DAGs are built beforehand (sequentially)
@@ -143,7 +156,8 @@ def run_interleaving(case):
                 turn["i"] = len(sched)
                 cond.notify_all()
 
-    ths = [threading.Thread(target=thread_body, args=(t, acts), daemon=True) for t, acts in case["threads"].items()]
+    # (all threads carry the same name: thread identity is not the name)
+    ths = [threading.Thread(target=thread_body, args=(t, acts), daemon=True, name="worker") for t, acts in case["threads"].items()]
     for th in ths:
         th.start()
     for th in ths:
@@ -168,7 +182,7 @@ def gen_thread_case(rng):
                     acts.append(["desc", rng.choice([1, 2, 3, 100, 101])])
                 acts.append(["end"])
             else:
-                acts.append(["call", rng.choice([1, 2, 100, 101])])
+                acts.append(["call", rng.choice([1, 2, 100, 101, 102, 102])])
         threads[str(t)] = acts
     # a random schedule that respects the lock: simulate
     remaining = {t: list(a) for t, a in threads.items()}
@@ -304,6 +318,8 @@ def run_threads(pid, tier, seed, res, only=None):
     rng = random.Random(seed * 86028121 + 17)
     n = 60 if tier == "quick" else 600
     cases = [dict(threads={"1": [["begin"], ["desc", 1], ["desc", 2], ["end"]], "2": [["call", 100]]}, sched=["1", "1", "2", "1", "1"]),
+             dict(threads={"1": [["begin"], ["desc", 1], ["desc", 2], ["end"]], "2": [["call", 102]]}, sched=["1", "1", "2", "1", "1"]),
+             dict(threads={"1": [["begin"], ["desc", 1], ["end"]], "2": [["call", 102], ["call", 1]], "3": [["call", 102]]}, sched=["1", "2", "3", "1", "2", "1"]),
              dict(threads={"1": [["begin"], ["desc", 1], ["desc", 2], ["end"]], "2": [["begin"], ["desc", 3], ["desc", 100], ["end"]]}, sched=["1", "1", "1", "1", "2", "2", "2", "2"], early={"2": 2}),
              dict(threads={"1": [["begin"], ["desc", 1], ["desc", 100], ["end"]], "2": [["call", 2]], "3": [["call", 101]]}, sched=["1", "1", "2", "3", "1", "1"])]
     for _ in range(n):
